@@ -237,3 +237,13 @@ Definition exposed_hpwl (c : circuit) (nets : list (list hpin)) (s : pstate) : Z
 Definition in_int (v : Z) : bool := (INT_MIN <=? v) && (v <=? INT_MAX).
 Definition int_pinsb (c : circuit) (nets : list (list hpin)) : bool :=
   forallb (fun net => forallb in_int (map (pin_px (hcells c)) net) && forallb in_int (map (pin_py (hcells c)) net)) nets.
+
+(* a condition on the INPUT that makes int_pins hold at every exposed state of the F8 scope: every pin of a cell the
+   optimiser may move stays a machine int wherever the cell sits in a row (x between the ends of the row, y = the
+   row's) *)
+Definition pins_fit (c : circuit) (rh : Z) (nets : list (list hpin)) : Prop :=
+  forall net p k r, In net nets -> In p net -> nth_error (cells c) (pc p) = Some k ->
+    c_fixed k = false -> placed_h k = rh -> In r (rows c) ->
+    let ox := pin_x_offset (c_o k) (c_w k) (c_h k) (pxo p) (pyo p) in
+    let oy := pin_y_offset (c_o k) (c_w k) (c_h k) (pxo p) (pyo p) in
+    INT_MIN <= minX (rr r) + ox /\ maxX (rr r) + ox <= INT_MAX /\ INT_MIN <= minY (rr r) + oy <= INT_MAX.
